@@ -55,8 +55,9 @@ def build(rng, idx, usedir):
             ch.add("%sdef %s(a) {" % (ind0, fname))
         else:
             ch.add("%sglobal %s = fun(a) {" % (ind0, fname))
-        for _ in range(rng.randrange(0, 3)):
-            ch.add("%s  %s" % (ind0, rng.choice(["var t%d = a + %d" % (rng.randrange(1000), rng.randrange(9)), "// filler", "", "a + 1", "var s%d = \"x\"" % rng.randrange(1000)])))
+        for fi in range(rng.randrange(0, 3)):
+            # filler names are unique within the function (a repeated name would be a 'Variable redefined' fault of its own)
+            ch.add("%s  %s" % (ind0, rng.choice(["var t%d_%d = a + %d" % (rng.randrange(1000), fi, rng.randrange(9)), "// filler", "", "a + 1", "var s%d_%d = \"x\"" % (rng.randrange(1000), fi)])))
             ch.noise(rng)
         ind = ind0 + rng.choice(["  ", "    ", "\t", "      "])
         if level == 0:
